@@ -64,6 +64,9 @@ def run(ctx: Ctx):
                           {"case": case, "implementation": f"spark: {e!r}"[:400], "specification": "duckdb: success"},
                           {"dialect": "spark", "asymmetric_failure": True, "comparisons": sorted(case["spec"]["comparisons"])})
             continue
+        if ref["em_sessions"] != oth["em_sessions"] and c06_x.underflow_range(ref):
+            ctx.hist("skipped_underflow_degenerate_em", "spark")
+            continue
         term, diffs, stats = c06_x.compare(ctx, case, ref, oth, "spark")
         ctx.count_case(("pipe", "spark", json.dumps(case, sort_keys=True, default=str)), stats["pairs"] >= 10,
                        {"backend": "spark", "spec": case["spec"], **stats})
